@@ -163,6 +163,17 @@ def rule_iter(ctx, rep):
         f = m.fn(name)
         pat.require(f is not None, name + " vanished")
         dtable.compare(rep, "C11.iter", name, f, exp, "next word classes (0 = push in flight, 1 = END, X = node)")
+    # results that report the stack state at the operation's linearisation point (the value the exchange returned)
+    ret = {
+        "cds_wfs_push": ({(1,): {0}, ("X",): {1}}, "push returns `stack was non-empty` = (exchanged-out head != END)"),
+        "__cds_wfs_pop_all": ({(1,): {0}, ("X",): {"V0"}}, "pop_all returns NULL iff the exchanged-out head is END, else that head"),
+        "cds_wfs_empty": ({(1,): {1}, ("X",): {0}}, "empty() iff head == END"),
+        "cds_lfs_empty": ({(0,): {1}, ("X",): {0}}, "empty() iff head == NULL"),
+    }
+    for name, (exp, what) in ret.items():
+        f = m.fn(name)
+        pat.require(f is not None, name + " vanished")
+        dtable.compare(rep, "C11.ret", name, f, exp, what)
 
 
 RULES = [
